@@ -1480,7 +1480,72 @@ def run_large_conn(case):
     return o
 
 
+# --------------------------------------------------------------------------
+# two structures in two named data blocks of one file (data_block= of set/get_structure)
+# --------------------------------------------------------------------------
+def st_two_blocks(tier):
+    @st.composite
+    def gen(draw):
+        a = draw(st_structure(tier, small=True, allow_bonds=False, models=st.sampled_from([0, 0, 2])))
+        b = draw(st_structure(tier, small=True, allow_bonds=False, models=st.sampled_from([0, 0, 2])))
+        return {
+            "first": a, "second": b,
+            "names": draw(st.sampled_from([["first", "second"], ["A", "B"], ["x1", "structure_2"]])),
+            "kind": draw(st.sampled_from(["cif", "bcif"])),
+            "preexisting": draw(st.booleans()),
+        }
+
+    return gen()
+
+
+def run_two_blocks(case):
+    from biotite.structure.io import pdbx
+
+    o = Outcome()
+    parts = []
+    for key in ("first", "second"):
+        c = case[key]
+        fl = flatten(c)
+        spans = residue_spans(fl)
+        keys = [(fl["chain_id"][s], fl["res_id"][s], fl["ins_code"][s], fl["res_name"][s]) for s, _ in spans]
+        if len(set(keys)) != len(keys) or len(spans) != len(c["residues"]):
+            o.invalid = True
+            return o
+        parts.append((c, fl, want_from_case(c, fl)))
+    n1, n2 = case["names"]
+    with warnings.catch_warnings():
+        warnings.simplefilter("ignore")
+        f = pdbx.CIFFile() if case["kind"] == "cif" else pdbx.BinaryCIFFile()
+        if case["preexisting"]:
+            f["other"] = pdbx.CIFBlock() if case["kind"] == "cif" else pdbx.BinaryCIFBlock()
+            o.label("file_had_a_block_before")
+        for name, (c, fl, w) in zip((n1, n2), parts):
+            pdbx.set_structure(f, build_array(c, fl), data_block=name, extra_fields=list(w["extra"]))
+        want_names = (["other"] if case["preexisting"] else []) + [n1, n2]
+        o.check_eq(list(f.keys()), want_names, "data_block_selects_the_block", "block names after two set_structure(data_block=...) calls")
+        f2 = through_route(f, "cif_ser" if case["kind"] == "cif" else "bcif")
+        for name, (c, fl, w) in zip((n1, n2), parts):
+            if name not in f2.keys():
+                o.fail("data_block_selects_the_block", f"block {name!r} missing after the round trip: {list(f2.keys())}")
+                continue
+            m = c["models"]
+            got = pdbx.get_structure(f2, model=None if m > 0 else 1, data_block=name, extra_fields=list(extra_field_request(w)))
+            compare_atoms(o, got, w, f"data_block={name}")
+    o.label("kind=" + case["kind"])
+    o.mark_nontrivial()
+    return o
+
+
 SUBS = [
+    Sub(
+        "two_blocks",
+        st_two_blocks,
+        run_two_blocks,
+        quick=300,
+        thorough=10000,
+        rule="two structures written into two named data blocks of one file",
+        clauses="set_structure(data_block=...) / get_structure(data_block=...) address exactly the named block",
+    ),
     Sub(
         "large_struct_conn",
         st_large_conn,
